@@ -13,7 +13,7 @@ GenNext == \E p \in Procs :
               \/ Crash(p, FALSE) /\ hist' = Append(hist, [proc |-> p, label |-> "crash", kill |-> FALSE])
               \/ CcKilled(p) /\ hist' = Append(hist, [proc |-> p, label |-> "cckill", kill |-> TRUE])
 GenSpec == GenInit /\ [][GenNext]_<<vars, hist>>
-Quiescent == (\A p \in Procs : pc[p] \in {"done", "dead", "idle", "failed"}) /\ ~CompilerRunning
+Quiescent == (\A p \in Procs : pc[p] \in {"done", "dead", "idle", "failed", "broken"}) /\ ~CompilerRunning
              /\ \E p \in Procs : pc[p] # "idle"
 Emit == Quiescent => PrintT(<<"BEHAVIOUR", ToJson([steps |-> hist])>>)
 =============================================================================
